@@ -19,6 +19,7 @@ machinery).
 from __future__ import annotations
 
 import builtins
+import os
 import time
 import traceback
 
@@ -723,7 +724,7 @@ def _model_values(st: _State):
     return vals
 
 
-def explore(fn, *, prefix=None, cut_depth=None, budget_s=None, max_violation_keys=500, stop_on=None, sample_every=1):
+def explore(fn, *, prefix=None, cut_depth=None, budget_s=None, max_violation_keys=500, stop_on=None, sample_every=1, stop_flag=None):
     """Depth-first exhaustion of fn's decision tree.
 
     prefix: list of forced decision nodes (from a previous cut run) — explores only that subtree.
@@ -740,6 +741,10 @@ def explore(fn, *, prefix=None, cut_depth=None, budget_s=None, max_violation_key
     stop = False
     timed_out = False
     while True:
+        if stop_flag is not None and os.path.exists(stop_flag):
+            # another worker of this obligation found a violation that is not a known finding: the verdict is settled
+            stop = True
+            break
         st = _State(trace, forced, cut_depth, deadline)
         ST = st
         X = Explorer(st)
@@ -857,14 +862,23 @@ _PAR_FN = None
 
 
 def _par_worker(args):
-    prefix, budget_s, stop_keys = args
+    prefix, budget_s, stop_keys, stop_flag = args
     stop_on = None
     if stop_keys is not None:
         import fnmatch
 
         sk = list(stop_keys)
-        stop_on = lambda rec: not any(fnmatch.fnmatchcase(rec["key"], k) for k in sk)  # noqa
-    r = explore(_PAR_FN, prefix=prefix, budget_s=budget_s, stop_on=stop_on)
+
+        def stop_on(rec):
+            unknown = not any(fnmatch.fnmatchcase(rec["key"], k) for k in sk)
+            if unknown and stop_flag:
+                try:
+                    open(stop_flag, "w").close()
+                except OSError:
+                    pass
+            return unknown
+
+    r = explore(_PAR_FN, prefix=prefix, budget_s=budget_s, stop_on=stop_on, stop_flag=stop_flag)
     r.prefixes = None
     return r
 
@@ -896,8 +910,20 @@ def explore_parallel(fn, *, procs=16, depth=3, budget_s=None, known_keys=None):
         return total
     remaining = None if budget_s is None else max(1.0, budget_s - (time.time() - t0))
     stop_keys = None if known_keys is None else list(known_keys)
-    with ctx.Pool(min(procs, len(prefixes))) as p:
-        rs = p.map(_par_worker, [(pf, remaining, stop_keys) for pf in prefixes], chunksize=1)
+    import tempfile
+
+    flagdir = tempfile.mkdtemp(prefix="vf-stop-")
+    stop_flag = os.path.join(flagdir, "stop")
+    try:
+        with ctx.Pool(min(procs, len(prefixes))) as p:
+            rs = p.map(_par_worker, [(pf, remaining, stop_keys, stop_flag) for pf in prefixes], chunksize=1)
+    finally:
+        try:
+            if os.path.exists(stop_flag):
+                os.unlink(stop_flag)
+            os.rmdir(flagdir)
+        except OSError:
+            pass
     all_ex = True
     for r in rs:
         total.merge(r)
